@@ -2,6 +2,7 @@ package core
 
 import (
 	"fmt"
+	"sort"
 	"strconv"
 	"strings"
 )
@@ -163,9 +164,14 @@ type Dict map[string]Object
 
 func (d Dict) Type() ObjectType { return ObjDict }
 func (d Dict) String() string {
+	keys := make([]string, 0, len(d))
+	for key := range d {
+		keys = append(keys, key)
+	}
+	sort.Strings(keys)
 	var parts []string
-	for key, val := range d {
-		parts = append(parts, fmt.Sprintf("/%s %s", key, val.String()))
+	for _, key := range keys {
+		parts = append(parts, fmt.Sprintf("/%s %s", key, d[key].String()))
 	}
 	return "<<" + strings.Join(parts, " ") + ">>"
 }
